@@ -333,6 +333,11 @@ def run(ctx):
                 ck.ob('C17-c', 'R9.unsigned-sub', fn.name, inst, False, v.msg, v.node.file, v.node.line, path=v.path,
                       config=config)
         ck.min_instances('unsigned decrements in the response scanners', nsub, 2)
+        # ---- e ownership of carried-over buffers; reset completeness of the per-transfer state
+        from ..rules import extra
+        ne = extra.check_own_then_free(ck, prog, config, 'C17-e', units=('dl/dl.c', 'dl/multipart.c', 'dl/range.c'))
+        ck.min_instances('functions storing a local pointer into a field and calling free()', ne, 1)
+        extra.check_dl_reset(ck, prog, config, 'C17-e')
         # ---- d
         dlrules.arming_guard(ck, prog, config, 'C17-d')
         dlrules.confinement(ck, prog, config, 'C17-d')
